@@ -10,6 +10,11 @@ package plugin
 //@ fields runningStep owned_by(run): currentStage atpClient
 //@ fields runningStep immutable: lock ctx cancel deployInput runInput enabledInput executionChannel signalFromStep stageChangeHandler stepSchema deployerRegistry logger deploymentType source pluginStepID localDeployer runID
 //@ fields runningStep atomic(set-only): closed
+// The provider and the runnable step belong to the prepared workflow and are shared by all its runs
+// (C14): nothing in them is written once they are built - neither a field (including fields added
+// later) nor the contents of a map field.
+//@ fields runnableStep immutable: others
+//@ fields pluginProvider immutable: others
 //
 // ---- what every method may rely on (established by Start, fields are immutable) ----
 //@ pred wfstep(r *runningStep) = r != nil && r.lock != nil && r.stageChangeHandler != nil && r.logger != nil && \
